@@ -263,6 +263,9 @@ def go_side(ctx, results, scheds, st, baseline=None, hand_built=True):
     unreal = 0
 
     def report(key, what, r):
+        # plans with a ghost request exist to watch one defect: their keys are kept apart from all others
+        if by_id[r["id"]].get("ghost") and not key.startswith("ghost:"):
+            key = "ghost:" + key
         if st["reports"] < MAX_REPORTS:
             if ctx.violation(key, what, {"kind": by_id[r["id"]].get("kind", "run"), "schedule": by_id[r["id"]], "result": r}):
                 st["reports"] += 1
@@ -284,17 +287,18 @@ def go_side(ctx, results, scheds, st, baseline=None, hand_built=True):
         if hand_built:
             bad = {f: c for f, c in r["ds_calls"].items() if c != 1}
             nleaves = len([x for x in json.dumps(s["tree"]).split('"k": "F"')]) - 1
-            if s.get("ghost"):
-                pass   # a request that selects no parent item may legitimately not be issued at all
-            elif bad or len(r["ds_calls"]) != nleaves:
+            ghost = {str(f) for f in s.get("ghost", [])}
+            # a request that selects no parent item has nothing to read: it may be issued (once) or not at all
+            bad = {f: c for f, c in bad.items() if not (f in ghost and c <= 1)}
+            missing = nleaves - len(set(r["ds_calls"]) | ghost)
+            if bad or missing:
                 report("run:request-count", "data sources were not invoked exactly once per planned request (calls per request %s, %d requests planned); "
                                             "schedule %s of plan %s" % (r["ds_calls"], nleaves, r["id"], plan), r)
-            if s.get("ghost"):
-                pass   # no oracle for a request that has nowhere to merge: only the comparison across completion orders below
-            elif r["data"] != r["expect_data"]:
+            # (for a ghost request the dependency-ordered evaluation leaves its field null and everything else untouched)
+            if r["data"] != r["expect_data"]:
                 report("run:response-differs", "response data %s differs from the dependency-ordered evaluation %s; schedule %s steps %s of plan %s" % (
                     r["data"], r["expect_data"], r["id"], [(x["f"], x["a"]) for x in s["steps"]], plan), r)
-            if not s.get("ghost") and len(r["errors"]) != len(s.get("fail", [])):
+            if len(r["errors"]) != len(s.get("fail", [])):
                 report("run:errors-count", "%d errors in the response, %d requests answered with errors; schedule %s of plan %s" % (
                     len(r["errors"]), len(s.get("fail", [])), r["id"], plan), r)
         elif baseline is not None:
@@ -405,7 +409,7 @@ def replay(ctx, bins):
 # ------------------------------------------------------------------------------------------------ main
 def load_own_findings(ctx):
     """findings.d/C08.json is this check's fragment of known-findings.json; honour it even before the coordinator merged it"""
-    frag = os.path.join(lib.VERIF, "findings.d", "C08.json")
+    frag = os.environ.get("VERIF_C08_FINDINGS") or os.path.join(lib.VERIF, "findings.d", "C08.json")
     known = ctx.known()
     if os.path.exists(frag):
         with open(frag) as f:
@@ -518,19 +522,23 @@ def run(ctx):
             p["probe"] = True
     plans += small + four + five
     # (i') the same small trees with one request turned into a "ghost": a non-entity nested fetch whose fetch path selects
-    # no item (null / absent ancestor), concurrent with at least one other request and read by nobody
+    # no item (null / absent ancestor), concurrent with every other request (no dependencies, read by nobody)
     ghosts = []
     for p in small:
         n = len(p["deps"])
         sinks = [f for f in range(1, n + 1) if not any(f in d for d in p["deps"])]
-        cand = [f for f in sinks if any(g != f and g not in p["deps"][f - 1] for g in range(1, n + 1))]
+        # the ghost itself reads nothing (it has no parent item): it must not have dependencies of its own either
+        cand = [f for f in sinks if not p["deps"][f - 1] and n > 1]
         if cand:
             ghosts.append({"tree": p["tree"], "deps": p["deps"], "src": "tree", "fail": [], "probe": False, "ghost": [rng.choice(cand)]})
-    if quick:
-        # only plans without dependencies: the defect then shows as order-dependent data (python side); a dependent request
+    ghost_open = any(k.get("property") == "C08" and k.get("status") == "open" and str(k.get("key", "")).startswith("ghost:") for k in ctx.known())
+    if quick and ghost_open:
+        # while the finding is open: only plans without dependencies. The defect then shows python side; a dependent request
         # that loses its input is rejected by TLC, and every rejected trace costs another TLC run (thorough only)
         ghosts = [p for p in ghosts if not any(p["deps"])]
     rng.shuffle(ghosts)
+    if quick:
+        ghosts = ghosts[:6]
     for i, p in enumerate(ghosts):
         p["grp"] = "G%04d" % i
     plans += ghosts
